@@ -1,4 +1,662 @@
+//! routex — decides property C10 (actix-router pattern matching, captures, path building and partial
+//! percent-decoding) by bounded-exhaustive enumeration of patterns × paths against an independent
+//! reference matcher. See DESIGN.md §4 C10 and ENGINE_GUIDE.md.
+
+mod checks;
+mod gen;
+mod refm;
+
+use checks::*;
+use mc_core::report::{read_replay, Evidence, Reporter, Violation};
+use refm::*;
+use serde_json::{json, Value};
+use std::collections::{BTreeMap, HashSet};
+use std::sync::atomic::{AtomicBool, AtomicUsize, Ordering};
+use std::sync::Mutex;
+use std::time::{Duration, Instant};
+
+const PROP: &str = "C10";
+
+/// Per-thread accumulator; merged deterministically (sums, set unions, minima under a total order).
+#[derive(Default)]
+struct Local {
+    evals: BTreeMap<&'static str, u64>,
+    matched: u64,
+    matched_with_caps: u64,
+    list_nonfirst: u64,
+    url_rejected_by_http: u64,
+    violating_cases: u64,
+    shapes: HashSet<u64>,
+    /// (clause, signature) -> (weight, replay text, violation): simplest kept
+    viol: BTreeMap<(String, String), (u64, String, Violation)>,
+    /// smallest-hash nontrivial cases, as samples
+    samples: Vec<(u64, Value)>,
+}
+
+impl Local {
+    fn eval(&mut self, phase: &'static str) {
+        *self.evals.entry(phase).or_insert(0) += 1;
+    }
+    fn record(&mut self, spec: &Spec, label_hash: u64, subject: &str, info: &CaseInfo) {
+        if info.list_nonfirst {
+            self.list_nonfirst += 1;
+        }
+        if info.matched {
+            self.matched += 1;
+            if info.ncaps > 0 {
+                self.matched_with_caps += 1;
+                let mut h = label_hash;
+                for x in &info.shape {
+                    h = (h ^ (*x as u64 + 1)).wrapping_mul(0x100000001b3);
+                }
+                if self.shapes.insert(h) {
+                    let sh = mc_core::fnv_str(subject) ^ h;
+                    if self.samples.len() < 6 || sh < self.samples.last().unwrap().0 {
+                        self.samples.push((sh, json!({"resource": spec.label(), "subject": mc_core::show_short(subject.as_bytes(), 60), "matched_len": info.shape.first(), "capture_lens": &info.shape[1.min(info.shape.len())..]})));
+                        self.samples.sort_by(|a, b| a.0.cmp(&b.0).then_with(|| a.1.to_string().cmp(&b.1.to_string())));
+                        self.samples.truncate(6);
+                    }
+                }
+            }
+        }
+    }
+    fn add(&mut self, fails: Vec<Fail>, weight: u64, replay: impl Fn() -> Value) {
+        if fails.is_empty() {
+            return;
+        }
+        self.violating_cases += 1;
+        let rp = replay();
+        let rtext = rp.to_string();
+        for f in fails {
+            let key = (f.clause.to_string(), f.sig.clone());
+            let better = match self.viol.get(&key) {
+                None => true,
+                Some((w, t, _)) => (weight, &rtext) < (*w, t),
+            };
+            if better {
+                let v = Violation { property: PROP.into(), clause: f.clause.into(), signature: f.sig, what: f.what, replay: rp.clone(), weight };
+                self.viol.insert(key, (weight, rtext.clone(), v));
+            }
+        }
+    }
+    fn merge(&mut self, o: Local) {
+        for (k, v) in o.evals {
+            *self.evals.entry(k).or_insert(0) += v;
+        }
+        self.matched += o.matched;
+        self.matched_with_caps += o.matched_with_caps;
+        self.list_nonfirst += o.list_nonfirst;
+        self.url_rejected_by_http += o.url_rejected_by_http;
+        self.violating_cases += o.violating_cases;
+        self.shapes.extend(o.shapes);
+        for (k, v) in o.viol {
+            let better = match self.viol.get(&k) {
+                None => true,
+                Some((w, t, _)) => (v.0, &v.1) < (*w, t),
+            };
+            if better {
+                self.viol.insert(k, v);
+            }
+        }
+        self.samples.extend(o.samples);
+        self.samples.sort_by(|a, b| a.0.cmp(&b.0).then_with(|| a.1.to_string().cmp(&b.1.to_string())));
+        self.samples.dedup_by(|a, b| a.0 == b.0 && a.1 == b.1);
+        self.samples.truncate(6);
+    }
+}
+
+struct Runner {
+    threads: usize,
+    seed: u64,
+    deadline: Instant,
+    capped: AtomicBool,
+    total: Mutex<Local>,
+    /// phases that ran to completion, with their unit counts
+    completed: Mutex<Vec<String>>,
+}
+
+impl Runner {
+    /// Run `n` independent work units on the worker threads. `VERIF_SEED` only rotates the order.
+    fn run(&self, phase: &str, n: usize, f: impl Fn(usize, &mut Local) + Sync) {
+        if n == 0 {
+            return;
+        }
+        let t0 = Instant::now();
+        let next = AtomicUsize::new(0);
+        let done = AtomicUsize::new(0);
+        let rot = (self.seed as usize) % n;
+        let machinery: Mutex<Option<String>> = Mutex::new(None);
+        std::thread::scope(|s| {
+            for _ in 0..self.threads.min(n) {
+                s.spawn(|| {
+                    let mut local = Local::default();
+                    loop {
+                        if Instant::now() > self.deadline {
+                            self.capped.store(true, Ordering::SeqCst);
+                            break;
+                        }
+                        let k = next.fetch_add(1, Ordering::SeqCst);
+                        if k >= n {
+                            break;
+                        }
+                        let u = (k + rot) % n;
+                        let r = std::panic::catch_unwind(std::panic::AssertUnwindSafe(|| f(u, &mut local)));
+                        if let Err(p) = r {
+                            let msg = p.downcast_ref::<mc_core::MachineryError>().map(|m| m.0.clone()).unwrap_or_else(|| "harness panic outside a guarded subject call".into());
+                            *machinery.lock().unwrap() = Some(format!("phase {phase} unit {u}: {msg}"));
+                            break;
+                        }
+                        done.fetch_add(1, Ordering::SeqCst);
+                    }
+                    self.total.lock().unwrap().merge(local);
+                });
+            }
+        });
+        if let Some(m) = machinery.into_inner().unwrap() {
+            eprintln!("MACHINERY: {m}");
+            std::process::exit(2);
+        }
+        let d = done.load(Ordering::SeqCst);
+        self.completed.lock().unwrap().push(format!("{phase}: {d}/{n} units{} in {:.1}s", if d == n { "" } else { " (CAPPED)" }, t0.elapsed().as_secs_f64()));
+    }
+}
+
+fn weight(spec_text_len: usize, subject_len: usize) -> u64 {
+    (subject_len as u64) * 10_000 + spec_text_len as u64
+}
+
+fn spec_text_len(s: &Spec) -> usize {
+    s.texts().iter().map(|t| t.len() + 1).sum::<usize>() + s.list as usize * 50
+}
+
+fn match_replay(spec: &Spec, path: &str) -> Value {
+    let mut v = spec.to_json();
+    v["kind"] = json!("match");
+    v["path"] = json!(path);
+    v
+}
+
+fn construct(spec: &Spec, loc: &mut Local) -> Option<actix_router::ResourceDef> {
+    match std::panic::catch_unwind(|| build_def(spec)) {
+        Ok(rd) => {
+            let mut fails = Vec::new();
+            let texts = spec.texts();
+            if rd.pattern() != Some(texts[0].as_str()) || rd.is_prefix() != spec.prefix || rd.pattern_iter().map(str::to_string).collect::<Vec<_>>() != texts {
+                fails.push(Fail { clause: "b", sig: format!("accessors:pattern/is_prefix;{}", spec.kind()), what: format!("{}: pattern()={:?} is_prefix()={}", spec.label(), rd.pattern(), rd.is_prefix()) });
+            }
+            loc.add(fails, weight(spec_text_len(spec), 0), || match_replay(spec, ""));
+            Some(rd)
+        }
+        Err(_) => {
+            let f = Fail { clause: "b", sig: format!("construct-panics;{}", spec.kind()), what: format!("constructing {} panicked although the pattern is well-formed", spec.label()) };
+            loc.add(vec![f], weight(spec_text_len(spec), 0), || match_replay(spec, ""));
+            None
+        }
+    }
+}
+
+/// All (full, prefix) single-pattern specs for element sequences up to `n`.
+fn single_specs(n: usize, name_prefix: &str) -> Vec<Spec> {
+    let mut v = Vec::new();
+    for p in gen::pats(n, name_prefix) {
+        v.push(Spec::single(p.clone(), false));
+        v.push(Spec::single(p, true));
+    }
+    v
+}
+
+/// Ordered pairs (including equal) of patterns, full and prefix.
+fn list_specs(n: usize) -> Vec<Spec> {
+    let ps = gen::pats(n, "p");
+    let mut v = Vec::new();
+    for a in &ps {
+        for b in &ps {
+            v.push(Spec::list(vec![a.clone(), b.clone()], false));
+            v.push(Spec::list(vec![a.clone(), b.clone()], true));
+        }
+    }
+    v
+}
+
+fn phase_match(r: &Runner, name: &'static str, specs: &[Spec], paths: &[String]) {
+    r.run(name, specs.len(), |u, loc| {
+        let spec = &specs[u];
+        let Some(rd) = construct(spec, loc) else { return };
+        let kind = spec.kind();
+        let lh = mc_core::fnv_str(&spec.label());
+        let tl = spec_text_len(spec);
+        for path in paths {
+            let mut info = CaseInfo::default();
+            let fails = guarded("b", &kind, || check_match(spec, &rd, path, &mut info));
+            loc.eval(name);
+            loc.record(spec, lh, path, &info);
+            loc.add(fails, weight(tl, path.len()), || match_replay(spec, path));
+        }
+    });
+}
+
+fn phase_nested(r: &Runner, outer: &[Spec], inner: &[Spec], paths: &[String]) {
+    // per outer spec, the paths on which it matches (by the reference) — others have no second stage
+    let outer_hits: Vec<Vec<usize>> = outer.iter().map(|s| (0..paths.len()).filter(|&i| ref_all(s, paths[i].as_bytes()).iter().any(|m| m.is_some())).collect()).collect();
+    // outer definitions are built once and shared (ResourceDef is Sync); a panic here is reported by phase 1
+    let mut scratch = Local::default();
+    let outer_defs: Vec<Option<actix_router::ResourceDef>> = outer.iter().map(|s| construct(s, &mut scratch)).collect();
+    // unit = (outer resource, chunk of inner resources); the outer capture is done once per path
+    let chunk = 24;
+    let chunks = inner.len().div_ceil(chunk);
+    r.run("nested", outer.len() * chunks, |u, loc| {
+        let (oi, ci) = (u / chunks, u % chunks);
+        let s1 = &outer[oi];
+        let Some(rd1) = &outer_defs[oi] else { return };
+        let inner = &inner[ci * chunk..((ci + 1) * chunk).min(inner.len())];
+        let defs: Vec<Option<actix_router::ResourceDef>> = inner.iter().map(|s| construct(s, loc)).collect();
+        let kinds: Vec<String> = inner.iter().map(|s2| format!("nested:{}/{}", s1.kind(), s2.kind())).collect();
+        for &pi in &outer_hits[oi] {
+            let path = &paths[pi];
+            let Ok(Some(st)) = std::panic::catch_unwind(|| stage1(s1, rd1, path)) else { continue };
+            for (i, s2) in inner.iter().enumerate() {
+                let Some(rd2) = &defs[i] else { continue };
+                let fails = guarded("b", &kinds[i], || check_stage2(s1, s2, rd2, path, &st));
+                loc.eval("nested");
+                let tl = spec_text_len(s1) + spec_text_len(s2) + 100;
+                loc.add(fails, weight(tl, path.len()), || json!({"kind": "nested", "outer": s1.to_json(), "inner": s2.to_json(), "path": path}));
+            }
+        }
+    });
+}
+
+fn phase_build(r: &Runner, specs: &[Spec]) {
+    r.run("build", specs.len(), |u, loc| {
+        let spec = &specs[u];
+        let Some(rd) = construct(spec, loc) else { return };
+        let kind = spec.kind();
+        let lh = mc_core::fnv_str(&spec.label());
+        let menus: Vec<&'static [&'static str]> = spec.pats[0].classes().into_iter().map(gen::build_menu).collect();
+        for values in gen::tuples(&menus) {
+            let mut info = CaseInfo::default();
+            let fails = guarded("d", &kind, || check_build(spec, &rd, &values, &mut info));
+            loc.eval("build");
+            let built = spec.pats[0].build(&values);
+            loc.record(spec, lh, &built, &info);
+            loc.add(fails, weight(spec_text_len(spec), built.len()), || {
+                let mut v = spec.to_json();
+                v["kind"] = json!("build");
+                v["values"] = json!(values);
+                v
+            });
+        }
+    });
+}
+
+fn phase_load(r: &Runner, specs: &[Spec]) {
+    r.run("load", specs.len(), |u, loc| {
+        let spec = &specs[u];
+        let Some(rd) = construct(spec, loc) else { return };
+        let kind = spec.kind();
+        let lh = mc_core::fnv_str(&spec.label()) ^ 0x10ad;
+        // values are inserted into the FIRST pattern; for a list whichever pattern matches is used
+        let menus: Vec<&'static [&'static str]> = spec.pats[0].classes().into_iter().map(gen::load_menu).collect();
+        for values in gen::tuples(&menus) {
+            let path = spec.pats[0].build(&values);
+            let mut info = CaseInfo::default();
+            let mut fails = guarded("f", &kind, || check_load(spec, &rd, &path, &mut info));
+            loc.eval("load");
+            let mut via_url = false;
+            fails.extend(guarded("f", &kind, || match check_load_url(spec, &rd, &path) {
+                Some(f) => {
+                    via_url = true;
+                    f
+                }
+                None => vec![],
+            }));
+            if via_url {
+                loc.eval("load-via-url");
+            }
+            loc.record(spec, lh, &path, &info);
+            loc.add(fails, weight(spec_text_len(spec), path.len()), || {
+                let mut v = spec.to_json();
+                v["kind"] = json!("load");
+                v["path"] = json!(path);
+                v
+            });
+        }
+    });
+}
+
+/// Inputs: all strings of length ≤ dec_len over the decoder alphabet (generated by index), then `extra`.
+fn phase_decoder(r: &Runner, dec_len: usize, extra: &[Vec<u8>]) {
+    let chunk = 8192;
+    let n_enum = gen::shortlex_count(gen::DECODER_ALPHABET.len(), dec_len);
+    let n = n_enum + extra.len();
+    let units = n.div_ceil(chunk);
+    r.run("decoder", units, |u, loc| {
+        let quoters: Vec<(actix_router::Quoter, &[u8])> = gen::PROTECTED_SETS.iter().map(|p| (actix_router::Quoter::new(b"", p), *p)).collect();
+        for idx in u * chunk..((u + 1) * chunk).min(n) {
+            let owned;
+            let bytes: &Vec<u8> = if idx < n_enum {
+                owned = gen::shortlex_nth(&gen::DECODER_ALPHABET, idx);
+                &owned
+            } else {
+                &extra[idx - n_enum]
+            };
+            for (q, prot) in &quoters {
+                let fails = guarded("e", "quoter", || check_quoter(q, prot, bytes));
+                loc.eval("decoder-quoter");
+                loc.add(fails, weight(prot.len(), bytes.len()), || json!({"kind": "quoter", "protected": prot, "bytes": bytes}));
+            }
+            let mut skipped = false;
+            let fails = guarded("e", "url", || match check_url(bytes) {
+                Some(f) => f,
+                None => {
+                    skipped = true;
+                    vec![]
+                }
+            });
+            if skipped {
+                loc.url_rejected_by_http += 1;
+            } else {
+                loc.eval("decoder-url");
+            }
+            loc.add(fails, weight(0, bytes.len()), || json!({"kind": "url", "bytes": bytes}));
+        }
+    });
+}
+
+fn long_cases() -> Vec<LongCase> {
+    let mut v = Vec::new();
+    // lengths around the 8-, 15- and 16-bit limits of an offset; 65 535 is the largest path whose
+    // offsets fit PathItem::Segment(u16, u16)
+    for len in [255usize, 256, 257, 32767, 32768, 65533, 65534, 65535] {
+        for shape in LONG_SHAPES {
+            for d in 0..4 {
+                v.push(LongCase { shape, len, d });
+            }
+        }
+    }
+    v
+}
+
+fn phase_long(r: &Runner) {
+    let cases = long_cases();
+    r.run("long", cases.len(), |u, loc| {
+        let c = &cases[u];
+        let mut info = CaseInfo::default();
+        let fails = guarded("g", "long", || check_long(c, &mut info));
+        // guarded() labels a panic with clause g already; check_long relabels ordinary failures
+        loc.eval("long");
+        let spec = Spec::single(Pat { toks: vec![Tok::Lit(format!("<long:{}>", c.shape))] }, false);
+        loc.record(&spec, mc_core::fnv_str(c.shape) ^ c.len as u64, &format!("{}:{}:{}", c.shape, c.len, c.d), &info);
+        loc.add(fails, (c.len as u64) * 10_000 + c.d as u64, || json!({"kind": "long", "shape": c.shape, "len": c.len, "d": c.d}));
+    });
+}
+
+// ------------------------------------------------------------------------------------------------
+
+fn bytes_of(v: &Value) -> Vec<u8> {
+    match v {
+        Value::String(s) => s.as_bytes().to_vec(),
+        Value::Array(a) => a.iter().map(|x| x.as_u64().unwrap_or(0) as u8).collect(),
+        _ => vec![],
+    }
+}
+
+fn replay_main(file: &str) -> i32 {
+    let doc = read_replay(file);
+    let rp = if doc.get("replay").is_some() { doc["replay"].clone() } else { doc.clone() };
+    let kind = rp["kind"].as_str().unwrap_or("match").to_string();
+    let bad = |e: String| -> ! {
+        eprintln!("MACHINERY: {e}");
+        std::process::exit(2)
+    };
+    let mut info = CaseInfo::default();
+    let fails: Vec<Fail> = match kind.as_str() {
+        "match" | "build" | "load" => {
+            let spec = Spec::from_json(&rp).unwrap_or_else(|e| bad(e));
+            println!("resource: {}", spec.label());
+            let rd = match std::panic::catch_unwind(|| build_def(&spec)) {
+                Ok(rd) => rd,
+                Err(_) => {
+                    println!("constructing the resource panicked");
+                    return 1;
+                }
+            };
+            let fails = if kind == "build" {
+                let values: Vec<String> = rp["values"].as_array().map(|a| a.iter().map(|x| x.as_str().unwrap_or("").to_string()).collect()).unwrap_or_default();
+                println!("values: {values:?}");
+                let vr: Vec<&str> = values.iter().map(String::as_str).collect();
+                let mut s = String::new();
+                let ok = std::panic::catch_unwind(std::panic::AssertUnwindSafe(|| rd.resource_path_from_iter(&mut s, &vr)));
+                println!("real      resource_path_from_iter -> {ok:?} {s:?}");
+                println!("reference built path              -> {:?}", spec.pats[0].build(&vr));
+                let f = guarded("d", &spec.kind(), || check_build(&spec, &rd, &vr, &mut info));
+                print_match(&spec, &rd, &spec.pats[0].build(&vr));
+                f
+            } else {
+                let path = rp["path"].as_str().unwrap_or("").to_string();
+                print_match(&spec, &rd, &path);
+                if kind == "load" {
+                    let mut p = actix_router::Path::new(path.as_str());
+                    if rd.capture_match_info(&mut p) {
+                        println!("real      load::<Vec<String>>() -> {:?}", p.load::<Vec<String>>());
+                        println!("real      load::<struct(any fields)>() -> {:?}", p.load::<AnyStruct>());
+                    }
+                    let mut f = guarded("f", &spec.kind(), || check_load(&spec, &rd, &path, &mut info));
+                    f.extend(guarded("f", &spec.kind(), || check_load_url(&spec, &rd, &path).unwrap_or_default()));
+                    f
+                } else {
+                    guarded("b", &spec.kind(), || check_match(&spec, &rd, &path, &mut info))
+                }
+            };
+            fails
+        }
+        "nested" => {
+            let s1 = Spec::from_json(&rp["outer"]).unwrap_or_else(|e| bad(e));
+            let s2 = Spec::from_json(&rp["inner"]).unwrap_or_else(|e| bad(e));
+            let path = rp["path"].as_str().unwrap_or("").to_string();
+            println!("outer: {}   inner: {}   path: {:?}", s1.label(), s2.label(), path);
+            let (rd1, rd2) = (build_def(&s1), build_def(&s2));
+            let r = std::panic::catch_unwind(|| {
+                let mut p = actix_router::Path::new(path.as_str());
+                let a = rd1.capture_match_info(&mut p);
+                let b = rd2.capture_match_info(&mut p);
+                format!("outer={a} inner={b} captures={:?} unprocessed={:?}", p.iter().collect::<Vec<_>>(), p.unprocessed())
+            });
+            println!("real      {r:?}");
+            let r1 = ref_all(&s1, path.as_bytes());
+            println!("reference outer {}", ref_json(&s1, &path, &r1));
+            if let Some(m1) = r1.iter().flatten().next() {
+                let rest = &path[m1.len..];
+                println!("reference inner on {:?}: {}", rest, ref_json(&s2, rest, &ref_all(&s2, rest.as_bytes())));
+            }
+            guarded("b", "nested", || check_two_stage(&s1, &rd1, &s2, &rd2, &path))
+        }
+        "quoter" => {
+            let prot = bytes_of(&rp["protected"]);
+            let bytes = bytes_of(&rp["bytes"]);
+            let q = actix_router::Quoter::new(b"", &prot);
+            let real = std::panic::catch_unwind(std::panic::AssertUnwindSafe(|| q.requote(&bytes)));
+            println!("input     {:?} protected {:?}", mc_core::show(&bytes), mc_core::show(&prot));
+            println!("real      {:?}", real.map(|o| o.map(|v| mc_core::show(&v))));
+            println!("reference {:?} (None is expected iff equal to the input)", mc_core::show(&ref_requote(&bytes, &prot)));
+            guarded("e", "quoter", || check_quoter(&q, &prot, &bytes))
+        }
+        "url" => {
+            let bytes = bytes_of(&rp["bytes"]);
+            println!("input     /{:?}", mc_core::show(&bytes));
+            let mut raw = vec![b'/'];
+            raw.extend_from_slice(&bytes);
+            match http::Uri::try_from(raw.as_slice()) {
+                Ok(uri) => {
+                    let real = std::panic::catch_unwind(|| actix_router::Url::new(uri.clone()).path().to_string());
+                    println!("real      Url::new(..).path() = {real:?}");
+                    println!("reference {:?}", String::from_utf8_lossy(&ref_requote(uri.path().as_bytes(), b"%/+")));
+                }
+                Err(e) => println!("http::Uri rejects the input: {e}"),
+            }
+            guarded("e", "url", || check_url(&bytes).unwrap_or_default())
+        }
+        "long" => {
+            let shape = LONG_SHAPES.iter().find(|s| Some(**s) == rp["shape"].as_str()).copied().unwrap_or_else(|| bad("replay: unknown long shape".into()));
+            let c = LongCase { shape, len: rp["len"].as_u64().unwrap_or(0) as usize, d: rp["d"].as_u64().unwrap_or(0) as usize };
+            match build_long(&c) {
+                LongBuilt::Single(s, p) | LongBuilt::Load(s, p) => {
+                    println!("resource: {}   path: {} bytes: {:?}", mc_core::show_short(s.label().as_bytes(), 80), p.len(), mc_core::show_short(p.as_bytes(), 24));
+                    if let Ok(rd) = std::panic::catch_unwind(|| build_def(&s)) {
+                        let o = std::panic::catch_unwind(|| observe(&rd, &p));
+                        match o {
+                            Ok(o) => println!("real      is_match={} find_match={:?} capture={} consumed={} captures={:?}", o.is_match, o.find_match, o.capture, o.consumed, o.caps.iter().map(|(n, s, v)| (n.clone(), *s, v.len())).collect::<Vec<_>>()),
+                            Err(_) => println!("real      panicked"),
+                        }
+                        let rf = ref_all(&s, p.as_bytes());
+                        println!("reference {:?}", rf.iter().map(|m| m.as_ref().map(|m| (m.len, m.caps.clone()))).collect::<Vec<_>>());
+                    }
+                }
+                LongBuilt::Nested(s1, s2, p) => println!("outer: {}  inner: {}  path: {} bytes", mc_core::show_short(s1.label().as_bytes(), 80), s2.label(), p.len()),
+            }
+            guarded("g", "long", || check_long(&c, &mut info))
+        }
+        other => bad(format!("replay: unknown kind {other:?}")),
+    };
+    if fails.is_empty() {
+        println!("REPLAY: no clause fails on this case");
+        0
+    } else {
+        for f in &fails {
+            println!("REPLAY: clause={} signature={}", f.clause, f.sig);
+            println!("  {}", f.what);
+        }
+        1
+    }
+}
+
+fn print_match(spec: &Spec, rd: &actix_router::ResourceDef, path: &str) {
+    println!("path: {path:?}");
+    match std::panic::catch_unwind(|| observe(rd, path)) {
+        Ok(o) => println!("real      {}", o.to_json()),
+        Err(_) => println!("real      panicked"),
+    }
+    println!("reference {} (one entry per pattern; null = no match)", ref_json(spec, path, &ref_all(spec, path.as_bytes())));
+}
+
 fn main() {
-    eprintln!("MACHINERY: engine routex is not built yet");
-    std::process::exit(2);
+    let args = mc_core::cli::parse();
+    if args.property != PROP {
+        eprintln!("MACHINERY: routex serves C10 only (got {})", args.property);
+        std::process::exit(2);
+    }
+    install_quiet_panic_hook();
+    if let Some(f) = &args.replay {
+        std::process::exit(replay_main(f));
+    }
+    let thorough = args.tier == "thorough";
+    let start = Instant::now();
+    let wall_cap = args.wall_s.unwrap_or(if thorough { 25 * 60 } else { 10 * 60 });
+    let seed: u64 = std::env::var("VERIF_SEED").ok().and_then(|s| s.parse().ok()).unwrap_or(0);
+    let r = Runner {
+        threads: mc_core::cli::threads(),
+        seed,
+        deadline: start + Duration::from_secs(wall_cap),
+        capped: AtomicBool::new(false),
+        total: Mutex::new(Local::default()),
+        completed: Mutex::new(Vec::new()),
+    };
+
+    // quick: the DESIGN bounds (paths ≤ 6, decoder ≤ 5). thorough goes one beyond the DESIGN's
+    // thorough bounds (paths ≤ 8 instead of 7, decoder ≤ 7 instead of 6) because it fits the wall cap.
+    let path_len = if thorough { 8 } else { 6 };
+    let dec_len = if thorough { 7 } else { 5 };
+    let list2_len = if thorough { 7 } else { 4 };
+    let nested_len = if thorough { 7 } else { 6 };
+    let paths = gen::all_paths(path_len);
+    let short_paths: Vec<String> = paths.iter().filter(|p| p.len() <= list2_len).cloned().collect();
+    let nested_paths: Vec<String> = paths.iter().filter(|p| p.len() <= nested_len).cloned().collect();
+
+    // 1. single patterns (≤ 3 elements + edge cases) × {full, prefix} × all paths
+    let singles = single_specs(3, "p");
+    phase_match(&r, "match-single", &singles, &paths);
+    // 2. lists of two: 1-element patterns + edge cases on all paths; ≤ 2-element patterns on shorter paths
+    let lists1 = list_specs(1);
+    phase_match(&r, "match-list1", &lists1, &paths);
+    let lists2 = list_specs(2);
+    phase_match(&r, "match-list2", &lists2, &short_paths);
+    // 3. nested: a prefix resource (1 element / edge case / list) then an inner resource on the same Path
+    let mut outer: Vec<Spec> = single_specs(1, "p").into_iter().filter(|s| s.prefix).collect();
+    outer.extend(lists1.iter().filter(|s| s.prefix).step_by(7).cloned());
+    let inner = single_specs(2, "q");
+    phase_nested(&r, &outer, &inner, &nested_paths);
+    // 4. build + round trip
+    let mut build_specs = singles.clone();
+    build_specs.extend(if thorough { lists2.clone() } else { lists1.clone() });
+    phase_build(&r, &build_specs);
+    // 5. Path::load
+    let mut load_specs = single_specs(2, "p");
+    load_specs.extend(lists1.clone());
+    if thorough {
+        load_specs.extend(singles.iter().filter(|s| s.pats[0].dyn_count() <= 4).cloned());
+    }
+    phase_load(&r, &load_specs);
+    // 6. percent-decoder
+    phase_decoder(&r, dec_len, &gen::escape_pair_inputs());
+    // 7. long paths
+    phase_long(&r);
+
+    let capped = r.capped.load(Ordering::SeqCst);
+    let total = r.total.into_inner().unwrap();
+    let completed = r.completed.into_inner().unwrap();
+    let wall = start.elapsed().as_secs_f64();
+
+    let mut rep = Reporter::new(PROP);
+    for (_, (_, _, v)) in total.viol.iter() {
+        rep.add(v.clone());
+    }
+    let evaluations: u64 = total.evals.values().sum();
+    let mut ev = Evidence::new(PROP, &args.tier, "exploration");
+    ev.set("evaluations", evaluations)
+        .set("distinct_nontrivial", total.shapes.len() as u64)
+        .set(
+            "rule",
+            "Full cartesian products, no sampling: (1) every pattern made of ≤3 elements from {/a, /ab, /{x}, /a{x}, /{x}-{y}, /{x:[ab]+}, /{x:\\d+}, /{t:.*}, /{t}*} (tail last; params renamed p0..) plus edge patterns {\"\", /, /a/, //, /{p0}/, /a/{p0}/}, as full and as prefix resource, × ALL paths over {/,a,b,1,-} up to the length bound; (2) all ordered two-pattern lists; (3) nested prefix→inner matching on one Path; (4) resource_path_from_iter/_from_map over value menus; (5) Path::load over percent-escape menus; (6) Quoter/Url over ALL byte strings up to the bound over {%,2,5,F,f,a,/,+,0x80,B} × 5 protected sets plus every %XY pair of hex digits and their ASCII neighbours; (7) long paths at 8/15/16-bit offset limits. Each case compares is_match, find_match, capture_match_info (+_fn) and Path accessors with an independent backtracking reference matcher / reference decoder. distinct_nontrivial = number of distinct (resource definition, matched length, tuple of capture lengths) classes among cases where the real matcher and the reference both matched and ≥1 parameter was captured (for load: resource + decoded lengths); counted with a hash set.",
+        )
+        .set("samples", Value::Array(total.samples.iter().map(|s| s.1.clone()).collect()))
+        .set("exhaustive", !capped)
+        .set("capped", capped)
+        .set("evaluations_by_phase", json!(total.evals))
+        .set("phases", json!(completed))
+        .set("path_length_bound", path_len)
+        .set("path_length_bound_two_element_lists", list2_len)
+        .set("path_length_bound_nested", nested_len)
+        .set("decoder_length_bound", dec_len)
+        .set("paths_enumerated", paths.len() as u64)
+        .set("resources_single", singles.len() as u64)
+        .set("resources_list", (lists1.len() + lists2.len()) as u64)
+        .set("matches", total.matched)
+        .set("matches_with_captures", total.matched_with_caps)
+        .set("list_choice_not_first_pattern", total.list_nonfirst)
+        .set("url_inputs_rejected_by_http_uri", total.url_rejected_by_http)
+        .set("violating_cases", total.violating_cases)
+        .set("violations", json!(rep.summaries()))
+        .set("threads", r.threads as u64);
+    ev.assume("the reference matcher implements the documented pattern language (ResourceDef doc comments) with leftmost-first greedy capture semantics, for the piece languages [^/]+, [ab]+, \\d+, .* only")
+        .assume("for a multi-pattern resource any matching pattern of the list may supply length and captures (the docs do not say which); the count of cases where it was not the first is reported")
+        .assume("'yields those values back' is demanded only when the built path has exactly one decomposition under the pattern")
+        .assume("paths longer than 65 535 bytes (beyond PathItem::Segment(u16,u16) and the http::Uri limit of 65 534) are outside the quantifier")
+        .assume("Url::path() is compared after String::from_utf8_lossy, as requote_str_lossy documents");
+    ev.wall_s = wall;
+    ev.violations = rep.unknown_count() as i64;
+    ev.write();
+
+    println!(
+        "routex C10 tier={} evaluations={} distinct_nontrivial={} matches={} violating_cases={} capped={} wall={:.1}s",
+        args.tier,
+        evaluations,
+        total.shapes.len(),
+        total.matched,
+        total.violating_cases,
+        capped,
+        wall
+    );
+    for c in &completed {
+        println!("  {c}");
+    }
+    std::process::exit(rep.finish());
 }
